@@ -63,7 +63,7 @@ Value& INTExpression::value(Context & ctx) const
     case Type::TABCHAR:
       try
       {
-        v = Value(Numeric(std::stoll(std::string(val.tabchar()->data(), val.tabchar()->size()))));
+        v = Value(Integer(std::stoll(std::string(val.tabchar()->data(), val.tabchar()->size()))));
       }
       catch (std::invalid_argument& e)
       {
@@ -77,7 +77,8 @@ Value& INTExpression::value(Context & ctx) const
     case Type::NUMERIC:
     {
       Numeric d = *val.numeric();
-      if (d < Numeric(INT64_MIN) || d > Numeric(INT64_MAX))
+      /* it must fit in an integer: NaN fails the test */
+      if (!(d >= Numeric(INT64_MIN) && d < -Numeric(INT64_MIN)))
         throw RuntimeError(EXC_RT_OUT_OF_RANGE);
       v = Value(Integer(d));
       break;
@@ -88,7 +89,8 @@ Value& INTExpression::value(Context & ctx) const
     case Type::IMAGINARY:
     {
       Numeric d = val.imaginary()->a;
-      if (d < Numeric(INT64_MIN) || d > Numeric(INT64_MAX))
+      /* it must fit in an integer: NaN fails the test */
+      if (!(d >= Numeric(INT64_MIN) && d < -Numeric(INT64_MIN)))
         throw RuntimeError(EXC_RT_OUT_OF_RANGE);
       v = Value(Integer(d));
       break;
